@@ -15,10 +15,24 @@ P("C01", "proof", "Lean 4 refinement theorems (model = StdSpec, all interleaving
   theorems=["TP.C01.unix_front_all", "TP.C01.unix_interleave", "TP.C01.unix_remainder", "TP.C01.unix_has_root"],
   rule=NONTRIV + "non-trivial = at least two components; distinct by (input, mask)", design_ref="§5 C01")
 
-P("C02", "translation_validation", "Lean model vs code differential + independent grammar oracle",
-  "Model/code correspondence on the prefix near-miss domain; the implementation is compared with an independent "
-  "re-implementation of the documented grammar (harness/src/spec.rs).",
-  TV_NOTE, rule=NONTRIV + "non-trivial = prefix or at least two components", design_ref="§5 C02")
+P("C02", "proof", "Lean 4 theorems (decomposition after the prefix = split-based grammar; prefix unique/first/raw; drive letter; all queries) + model/code correspondence; prefix kind/payload classification by grammar oracle",
+  "Proved in Lean for every byte string: the components are the parsed prefix (if any) followed by "
+  "WinGrammar.bodySpec of the remaining bytes — optional root, split on `\\` and, unless the path starts with exactly "
+  "`\\\\?\\`, on `/`; `.` kept only at the start of the path unless verbatim; repeated and trailing separators produce "
+  "nothing (win_decomp, via compsT_eq_bodySpec for an arbitrary separator set); at most one prefix and only first "
+  "(win_prefix_unique_first); its raw text is the leading bytes and prefix_len its length (win_prefix_raw); a disk or "
+  "verbatim-disk drive letter is an upper-case ASCII letter (win_drive_ascii_upper); the kind sets tested by the "
+  "prefix-kind queries, extracted from the matches! arms of the source on every run, are the documented ones "
+  "(kind_sets_eq, by decide); prefix / has_prefix / has_any_verbatim_prefix / implicit root / physical root / root / "
+  "absoluteness are the obvious functions of the decomposition (win_queries).",
+  "Partial: that the byte-level prefix parser (six ordered alternatives with not(...) guards) assigns kind and payload "
+  "as the documented prefix grammar does is NOT proved; the harness's independent grammar (spec.rs win_prefix, "
+  "DESIGN A.2, validated on 205k inputs in the design round) is compared with the implementation on the near-miss "
+  "domain (11-letter alphabet, all 256 drive bytes, 21 prefix seeds x tails) on every run. Model=code by differential "
+  "testing. 'On every host platform': only a Linux host can be built here.",
+  theorems=["TP.C02.win_decomp", "TP.C02.win_prefix_unique_first", "TP.C02.win_prefix_raw", "TP.C02.win_drive_ascii_upper",
+            "TP.C02.kind_sets_eq", "TP.C02.win_queries", "TP.C02.compsT_eq_bodySpec"],
+  rule=NONTRIV + "non-trivial = prefix or at least two components", design_ref="§5 C02")
 
 P("C03", "proof", "Lean 4 theorems (induction over tokens and over the step list) + model/code correspondence",
   "Proved in Lean for the model, for every byte string, both encodings and every sequence of front/back steps: back "
@@ -135,9 +149,20 @@ P("C10", "translation_validation", "Lean model vs code differential + clause ora
   TV_NOTE + "Known findings K2, K3 set aside by class predicates.",
   rule=NONTRIV + "pairs (path, every byte-prefix and suffix of it, re-spellings, random others); non-trivial = proper non-empty component prefix", design_ref="§5 C10")
 
-P("C11", "translation_validation", "Lean model vs code differential + fold oracle",
-  "normalize bytes against the model; fold / idempotence / separator clauses on the implementation.",
-  TV_NOTE, rule=NONTRIV + "non-trivial = contains `.` or `..` and >= 2 components", design_ref="§5 C11")
+P("C11", "proof", "Lean 4 theorems for Unix (render lemma: pushing the folded components re-parses to them) + model/code correspondence; Windows by fold oracle",
+  "normFold in the model is literally the documented scan (drop `.`; `..` cancels the nearest preceding normal "
+  "component, else vanishes; prefix and root kept). Proved in Lean for every Unix byte string: the normalised bytes "
+  "parse to exactly that fold of the input's components (unix_normalize_comps, via render_shape and the Unix append "
+  "lemma), they contain no `.` and no `..` (unix_normalize_no_dots), the path is rooted exactly when the input is "
+  "(unix_normalize_keeps_root), and normalising again returns the same bytes (unix_normalize_idempotent).",
+  "Partial: for Windows (prefix kept, primary separator only, idempotence) the render lemma needs the Windows append "
+  "lemma, which is not proved; those clauses are decided by the oracle (fold computed independently on the "
+  "implementation's components, second normalisation compared byte for byte, separator scan) on a component-level "
+  "domain and long random `.`/`..` mixes. absolutize = join onto cwd then normalize: oracle for absolute inputs only. "
+  "Model=code by differential testing.",
+  theorems=["TP.C11.unix_normalize_comps", "TP.C11.unix_normalize_no_dots", "TP.C11.unix_normalize_keeps_root",
+            "TP.C11.unix_normalize_idempotent", "TP.C11.render_shape", "TP.C11.normFold_comps_shape"],
+  rule=NONTRIV + "all strings over {sep, .., ., a} up to 6 tokens x prefixes, long random mixes; non-trivial = contains `.` or `..` and >= 2 components", design_ref="§5 C11")
 
 P("C12", "proof", "Lean 4 theorems (law B; list lemma on the dot split) + model/code correspondence; replacement clause by oracle",
   "Proved in Lean for both encodings: file_name is the last component iff it is a normal name (file_name_iff_last_normal), "
